@@ -164,8 +164,8 @@ pub fn run_check(def: &PropertyDef, tier: &str, seed: u64) -> i32 {
                         }
                     }
                     Err(e) => {
-                        println!("HARNESS-ERROR: {e}");
-                        return 2;
+                        // deferred like the digest mismatch above: a reproducible violation may explain it
+                        deferred.push(e);
                     }
                 }
             }
